@@ -18,8 +18,8 @@ CHECKS = {
    text="Structural necessary conditions on every instantiated member with the throwing policy (packed and strlen layouts; thorough adds size-field and wchar_t), all paths: no capacity check, position "
         "check or call to a member that may throw is evaluated after the first length publication or character write of the body; every position parameter offset into X or subtracted from X.size() is "
         "dominated by check_index[_strict] against the same X or a branch entailing pos <= X.size(); every published length is exactly a policy-check result, a same-capacity size or 0, adjust_size only "
-        "shrinks; no offset is computed from a re-derived length after a growing publication; check_size throws length_error exactly for size > N, check_index out_of_range exactly for pos >= size, "
-        "check_index_strict = check_index(pos, size+1), at() checks first. Byte-exact extents of the shifting writes and the silent policy are NOT decided.",
+        "shrinks; no offset is computed from a re-derived length after a growing publication; every character write's destination range is proven inside [0,N] by linear arithmetic from the checks on its path; check_size throws length_error exactly for size > N, check_index out_of_range exactly for pos >= size, "
+        "check_index_strict = check_index(pos, size+1), at() checks first. Read extents, source/destination aliasing and the silent policy are NOT decided.",
    note="Trusts the event tables in sa/fstring.py (which calls write characters, which publish a length) and sa/linear.py; iterator parameters are assumed to point into *this."),
  "C05": dict(level="other", design="4.5",
    technique="abstract-variant typestate interpretation of the lifetime machinery over the template patterns (calls followed, visit_alt/visit_alt_at applied to their lambdas, exceptional successors at every element operation, try/catch rollback), relational truth tables against [variant.relops], guard-dominance rules for get/get_if/visit/hash, case-label/alternative agreement of the instantiated dispatch switches",
